@@ -1,3 +1,5 @@
+import FlowRecord.Model.Sha256
+import FlowRecord.Model.Utf8
 /-!
 The published RecordStream wire format, typed in by hand ONCE from the format description (property C02) and never
 regenerated: magic, extension type 14, sub-types, big-endian 4-byte length, reserved metadata fields in slot order,
@@ -25,6 +27,12 @@ def headerFrame : List UInt8 := [0, 0, 0, 15, 0xC4, 13] ++ magic
 def hashNameFirst : Bool := true          -- name ++ (fieldname ++ fieldtype)*
 def hashDigestBytes : Nat := 4
 def hashBigEndian : Bool := true
+/-- The published identifier rule, executable: SHA-256 over the UTF-8 text `name ++ concat(fieldname ++ fieldtype)`
+    (fields as `(type, name)` pairs, in declaration order), first four digest bytes read big endian.
+    `none` when the text cannot be encoded (valid names are ASCII). -/
+def descriptorHash (name : List Nat) (fields : List (List Nat × List Nat)) : Option Nat :=
+  (FlowRecord.Utf8.encodeSE (name ++ fields.flatMap (fun f => f.2 ++ f.1))).map FlowRecord.Sha256.hash32
+
 def packOptions : List (String × String) := [("unicode_errors", "'surrogateescape'"), ("use_bin_type", "True")]
 def unpackOptions : List (String × String) := [("raw", "False"), ("unicode_errors", "'surrogateescape'")]
 
